@@ -1,6 +1,7 @@
 package main
 
 import (
+	"fmt"
 	"go/types"
 	"math/big"
 
@@ -26,6 +27,19 @@ func isBigIntType(t types.Type) bool {
 
 func (fr *Frame) bigCall(st *State, fn *ssa.Function, args []Value) (Value, bool) {
 	v := fr.v
+	if fn.Pkg != nil && fn.Name() == "Modulus" && fn.Signature.Recv() == nil && fn.Signature.Params().Len() == 0 &&
+		fn.Signature.Results().Len() == 1 && isBigIntType(fn.Signature.Results().At(0).Type()) {
+		// Modulus() of a field package: a fresh big.Int holding the pinned modulus (the limbs q0..qN of the package
+		// are checked against the same pinned value under C01)
+		if pt, ok := fn.Signature.Results().At(0).Type().(*types.Pointer); ok && v.isBig(pt.Elem()) {
+			if fp := v.fieldParams(fn.Pkg); fp != nil {
+				o := v.newObject("Modulus", pt.Elem(), false)
+				st.mem[o] = v.F.Int(fp.Q)
+				v.assume("Modulus() of " + fn.Pkg.Pkg.Path() + " returns a fresh big.Int holding the pinned modulus (assumed: the package-level big.Int is initialised from the decimal string of q)")
+				return &PtrV{Obj: o}, true
+			}
+		}
+	}
 	if fn.Pkg == nil || fn.Pkg.Pkg.Path() != "math/big" {
 		return nil, false
 	}
@@ -111,6 +125,35 @@ func (fr *Frame) bigCall(st *State, fn *ssa.Function, args []Value) (Value, bool
 		return set(F.App("big.modinv", SInt, g, n))
 	case "Exp":
 		return set(F.App("big.exp", SInt, ld(1), ld(2), ld(3)))
+	case "SetBytes": // big-endian value of the bytes
+		se := &SpecEnv{fr: fr, st: st, old: st, vars: map[string]Value{}, pkg: fr.fn.Pkg, fn: fr.fn}
+		if sl, ok := args[1].(*SliceV); ok && sl.Len.IsConst() && sl.Obj != nil && sl.Len.K.Int64() <= 256 {
+			return set(se.bytesVal(sl, true))
+		}
+		if sl, ok := args[1].(*SliceV); ok && sl.Obj != nil {
+			if arr, isArr := v.content0(st, sl.Obj).(*ArrV); isArr {
+				return set(F.App("big.frombytes", SInt, arr.Arr, sl.Off, sl.Len))
+			}
+		}
+		v.fresh++
+		return set(F.Var(fmt.Sprintf("big.frombytes!%d", v.fresh), SInt))
+	case "ModSqrt": // z = a square root of x mod p when one exists (then z is returned), otherwise nil and z unchanged
+		x, pm := ld(1), ld(2)
+		has := F.App("big.hasmodsqrt", SBool, x, pm)
+		old := ld(0)
+		fr.store(st, args[0], F.Ite(has, F.App("big.modsqrt", SInt, x, pm), old), nil)
+		used()
+		return &IteV{C: has, A: args[0], B: &PtrV{}}, true
+	case "Bit":
+		used()
+		i := fr.asTerm(args[1])
+		x := ld(0)
+		if i.IsConst() && i.K.Sign() >= 0 && i.K.Int64() < 4096 {
+			// bit i of |x|
+			ax := abs(x)
+			return F.Mod(F.Div(ax, F.Int(pow2(int(i.K.Int64())))), F.I64(2)), true
+		}
+		return F.App("big.bit", SInt, x, i), true
 	case "BitLen":
 		used()
 		r := F.App("big.bitlen", SInt, ld(0))
